@@ -84,8 +84,11 @@ func genTry(g *c14gen) *tryProg {
 	if g.rng.Chance(65) {
 		p.Success = mk("success", 20, 1)
 	}
-	for _, h := range p.handlers() {
-		h.walk(func(x *gTask) { x.Ctx = 1 })
+	for k, h := range []*gTask{p.Finally, p.Fail, p.Success} {
+		if h != nil {
+			c := 51 + k
+			h.walk(func(x *gTask) { x.Ctx = c })
+		}
 	}
 	return p
 }
@@ -179,6 +182,7 @@ func runTry(pa *pipApp, rng *RNG, epoch string, p *tryProg, pre func(root app.Sc
 
 // subtree analysis of one task from the trace: did it (or something it spawned) fail; first/last seq
 type subRes struct {
+	complete    bool // executed all its commands, or stopped at its own failing command / failed nested task
 	failed      bool
 	first, last int
 	ran         bool
@@ -242,6 +246,7 @@ func analyse(t *gTask, evs map[string][]pEvent) (r subRes) {
 		}
 		pos++
 	}
+	r.complete = stopped || pos == len(t.Body)
 	return
 }
 
@@ -287,7 +292,6 @@ func c16oracles(o *Out, cs *c16case) {
 			handlerFailed = true
 		}
 	}
-	rejectedRace := false
 	check := func(h *gTask, name string, want bool) {
 		if h == nil {
 			return
@@ -299,27 +303,13 @@ func c16oracles(o *Out, cs *c16case) {
 		if r.ran && !want {
 			fail(name, fmt.Sprintf("handler %s ran although body failed=%v", h.Local, b.failed))
 		}
-		otherFailed := false
-		for _, x := range p.handlers() {
-			if x != h && res[x].failed {
-				otherFailed = true
-			}
-		}
 		if !r.ran && want {
-			switch {
-			case reg[h.Full] && ob.Errors[h.Full] && otherFailed:
-				// FINDING (reported): the handlers share the surrounding context and run concurrently; the
-				// failure of another handler made this handler's read-execute loop return before its first command
-				o.Stat("handler_cancelled_by_other_handler_failure")
-			case !reg[h.Full] && ob.SurFailed && otherFailed:
-				// the submission was rejected because the surrounding context was already done
-				rejectedRace = true
-				o.Stat("handler_submission_rejected_after_other_handler_failed")
-			default:
-				fail(name, fmt.Sprintf("handler %s did not run although it is defined and body failed=%v", h.Local, b.failed))
-			}
+			fail(name, fmt.Sprintf("handler %s did not run although it is defined and body failed=%v", h.Local, b.failed))
 		}
-		if reg[h.Full] != want && !(want && rejectedRace) {
+		if r.ran && !r.complete {
+			fail(name, fmt.Sprintf("handler %s was cut short: it executed only part of its commands although none of them failed", h.Local))
+		}
+		if reg[h.Full] != want {
 			fail(name, fmt.Sprintf("handler %s registered=%v, expected %v (body failed=%v)", h.Local, reg[h.Full], want, b.failed))
 		}
 		if r.ran && r.first < b.last {
@@ -329,7 +319,7 @@ func c16oracles(o *Out, cs *c16case) {
 	check(p.Finally, "finally_always", true)
 	check(p.Fail, "fail_iff", b.failed)
 	check(p.Success, "success_iff", !b.failed)
-	if ob.SurFailed != handlerFailed && !rejectedRace {
+	if ob.SurFailed != handlerFailed {
 		fail("containment", fmt.Sprintf("surrounding scope has errors=%v, a handler failed=%v, body failed=%v", ob.SurFailed, handlerFailed, b.failed))
 	}
 	if ob.AppFailed {
@@ -382,7 +372,7 @@ func c16coq(cs *c16case, names *nameTable) string {
 	for _, n := range cs.Obs.Names {
 		fin = append(fin, fmt.Sprintf("(%d, %s)", names.num(n), coqBool(cs.Obs.Errors[n])))
 	}
-	tb := fmt.Sprintf("{| tb_body := %s; tb_finally := %s; tb_fail := %s; tb_success := %s; tb_sep := 50; tb_par := 1 |}",
+	tb := fmt.Sprintf("{| tb_body := %s; tb_finally := %s; tb_fail := %s; tb_success := %s; tb_sep := 50; tb_par := 1; tb_cfin := 51; tb_cfail := 52; tb_csucc := 53 |}",
 		coqSubm(p.Body, names), coqOptSubm(p.Finally, names), coqOptSubm(p.Fail, names), coqOptSubm(p.Success, names))
 	return fmt.Sprintf("{| c_tb := %s; c_trace := %s; c_final := %s; c_sur_failed := %s |}", tb, coqList(tr), coqList(fin), coqBool(cs.Obs.SurFailed))
 }
